@@ -66,7 +66,7 @@ def required_reach(tier: str) -> dict[str, int]:
             if k != "silence":
                 r[f"cell:{t}:{k}:no-timeout"] = 3
         r[f"recovered:{t}"] = 3
-    r.update({"client.cut-after-pending": 20, "client.second-connection-silent": 10, "cut.mid-header": 10, "cut.mid-payload": 10, "cut.frame-boundary": 6, "close-twice": 100, "real.cases": 10, "real.recovered": 2})
+    r.update({"client.cut-after-pending": 20, "client.second-connection-silent": 10, "client.two-requests.first-failed": 20, "cut.mid-header": 10, "cut.mid-payload": 10, "cut.frame-boundary": 6, "close-twice": 100, "real.cases": 10, "real.recovered": 2})
     return r
 
 
@@ -227,6 +227,16 @@ async def run_client_level(sc: dict[str, Any]) -> dict[str, Any]:
             out["accepted"] = len(hub.connections)
             return out
         cl = UDSClient(tr, timeout=sc["timeout"], max_retry=sc["max_retry"])
+        if sc.get("two_requests"):
+            # a first request without retries meets the loss (and may leave the connection closed locally, e.g. after an ack timeout);
+            # the request that is judged is the next one on the same client, which has its retries
+            from gallia.services.uds.core.client import UDSRequestConfig
+
+            try:
+                r1 = await cl.request(service.ReadDataByIdentifierRequest(0xF190), UDSRequestConfig(max_retry=0))
+                out["first"] = ("ok", r1.pdu)
+            except BaseException as e:
+                out["first"] = ("exc", type(e).__name__, isinstance(e, ConnectionError), isinstance(e, TimeoutError), repr(e)[:160], type(e.__cause__).__name__ if e.__cause__ else None)
         ts = loop.time()
         try:
             resp = await cl.request(service.ReadDataByIdentifierRequest(0xF190))
@@ -353,6 +363,17 @@ def check_client(ctx: Any, sc: dict[str, Any], out: dict[str, Any]) -> None:
             ctx.reach("client.cut-after-pending")
     if sc.get("second_silent"):
         ctx.reach("client.second-connection-silent")
+    if sc.get("two_requests") and "first" in out:
+        ctx.reach("client.two-requests")
+        f = out["first"]
+        if f[0] == "exc":
+            ctx.reach("client.two-requests.first-failed")
+            if not (f[2] or f[3]) and k <= total:
+                ctx.violation(f"{t}/client/{sc['kind']}/first-request/{f[1]}", "connection loss surfaces from request() as something other than a missing response / connection error", w)
+            if k > total:
+                ctx.violation(f"{t}/client/fails-without-cut/{f[1]}", "request() failed although the peer answered completely", w)
+        elif f[1] != REPLY:
+            ctx.violation(f"{t}/client/wrong-reply-after-reconnect", "request() returned something other than the genuine reply", w)
     ctx.reach(f"cut.{where if where != 'boundary' else 'frame-boundary'}")
     if "connect_exc" in out:
         return  # handshake cut: covered at transport level
@@ -461,6 +482,16 @@ async def real_case(ctx: Any, sc: dict[str, Any], sockdir: str) -> None:
     try:
         tr = await cls.connect(target, timeout=2.0)
         cl = UDSClient(tr, timeout=sc["timeout"], max_retry=sc["max_retry"])
+        if sc.get("two_requests"):
+            # a first request without retries meets the loss (and may leave the connection closed locally, e.g. after an ack timeout);
+            # the request that is judged is the next one on the same client, which has its retries
+            from gallia.services.uds.core.client import UDSRequestConfig
+
+            try:
+                r1 = await cl.request(service.ReadDataByIdentifierRequest(0xF190), UDSRequestConfig(max_retry=0))
+                out["first"] = ("ok", r1.pdu)
+            except BaseException as e:
+                out["first"] = ("exc", type(e).__name__, isinstance(e, ConnectionError), isinstance(e, TimeoutError), repr(e)[:160], type(e.__cause__).__name__ if e.__cause__ else None)
         ts = loop.time()
         try:
             resp = await asyncio.wait_for(cl.request(service.ReadDataByIdentifierRequest(0xF190)), 30)
@@ -531,6 +562,8 @@ def run(ctx: Any, params: dict[str, Any]) -> None:
                             if mr == 2 and (k % 2 or d == 0.05):
                                 continue
                             one(ctx, {"transport": t, "level": "client", "cut_at": k, "kind": kind, "timeout": rng.choice([0.3, 2.0]), "restart_at": d, "max_retry": mr})
+                    # the loss hits a request without retries; the next request on the same client (one retry) must still get through
+                    one(ctx, {"transport": t, "level": "client", "cut_at": k, "kind": kind, "timeout": rng.choice([0.3, 2.0]), "restart_at": 0.0, "max_retry": 1, "two_requests": True})
                     if t == "doip" and kind != "silence":
                         # the restarting gateway accepts the first reconnect but stays silent on routing activation; later connections work
                         one(ctx, {"transport": t, "level": "client", "cut_at": k, "kind": kind, "timeout": 2.0, "restart_at": 0.0, "max_retry": 1, "second_silent": True})
